@@ -488,6 +488,20 @@ def resolve_combinator(prog: Program, mod: Module, fn: ast.AST, expr: ast.AST, a
                 value = _substitute(value, amap)
                 value = inline(fn, value, at)
                 return tuple(a.arg for a in lam.args.args)[:2], value, info, factory.name
+    if isinstance(expr, ast.Subscript) and isinstance(expr.value, ast.Name):
+        # `combs[K]` with `combs = {k: factory(c[k]) for k in (...)}` (a call evaluated once per key - a lambda
+        # written in the comprehension itself would read the LAST key and is not resolved here) or a dict literal
+        table = reaching(fn, expr.value.id, at)
+        if isinstance(table, ast.DictComp) and len(table.generators) == 1 and isinstance(table.generators[0].target, ast.Name) and not table.generators[0].ifs:
+            gen = table.generators[0]
+            keys = gen.iter.elts if isinstance(gen.iter, (ast.Tuple, ast.List, ast.Set)) else None
+            if isinstance(table.key, ast.Name) and table.key.id == gen.target.id and isinstance(table.value, ast.Call) and keys is not None and any(ast.dump(k) == ast.dump(expr.slice) for k in keys):
+                inst = _substitute(table.value, {gen.target.id: expr.slice})
+                return resolve_combinator(prog, mod, fn, inst, table)[:3] + (short(expr, 40),)
+        if isinstance(table, ast.Dict):
+            for k, v in zip(table.keys, table.values):
+                if k is not None and ast.dump(k) == ast.dump(expr.slice):
+                    return resolve_combinator(prog, mod, fn, v, table)[:3] + (short(expr, 40),)
     raise AnalysisError(f"combinator `{short(expr)}` has a shape that is not recognised")
 
 
